@@ -15,11 +15,12 @@ from theories import structs as ST
 
 IND = 'furax._base.indices'
 LIN = 'furax._base.linear'
-F_INIT = 'C12-init-eval-shape'          # known_findings.json ids
+# known_findings.json ids.  F_INIT, F_SCALAR, F_ALIAS are repaired in /repo (status fixed: a tagged obligation that is
+# refuted again is a violation, and their native witnesses are replayed on every run); F_UNIQUE is open.
+F_INIT = 'C12-init-eval-shape'
 F_SCALAR = 'C12-scalar-out-structure'
 F_ALIAS = 'C12-negative-alias-multiplicities'
 F_UNIQUE = 'C12-unique-pair-not-reduced'
-F_PACK = 'C12-pack-generic-pytree'
 
 
 def leaf(name):
@@ -348,41 +349,40 @@ def build_mv(ck, T):
         S.oblige('post', b.normal and b.value is xout, tag='out_structure-returns-the-stored-structure')
     ck.explore(f'{IND}.IndexOperator.in_structure', structures, T)
 
+    STOKES = {'StokesIPyTree': 'I', 'StokesQUPyTree': 'QU', 'StokesIQUPyTree': 'IQU', 'StokesIQUVPyTree': 'IQUV'}
+
     def pack_mv(S):
+        """the pack operator behaves as indexing every leaf by its mask, for every kind of pytree"""
         S.oracle = {'name': 'pack'}
         mask = IX.IdxV(z3.Const('mask', IX.Idx))
         S.assume(IX.is_mask(mask.term))
-        kind = S.choose(3)
-        S.inputs['tree'] = ['leaf', 'stokes', 'list'][kind]
+        kind = S.choose(4)
+        S.inputs['tree'] = ['leaf', 'stokes', 'list', 'dict'][kind]
         if kind == 0:
             x = leaf('x')
+            leaves_of = lambda t: [t]                                       # noqa: E731
         elif kind == 1:
-            cname = ['StokesIPyTree', 'StokesQUPyTree', 'StokesIQUPyTree', 'StokesIQUVPyTree'][S.choose(4)]
-            comps = [c.lower() for c in {'StokesIPyTree': 'I', 'StokesQUPyTree': 'QU', 'StokesIQUPyTree': 'IQU',
-                                         'StokesIQUVPyTree': 'IQUV'}[cname]]
+            cname = list(STOKES)[S.choose(4)]
+            comps = [c.lower() for c in STOKES[cname]]
             x = S.new(cname, **{c: leaf('x_' + c) for c in comps})
-        else:
+            leaves_of = lambda t: [t.fields.get(c) for c in comps] if isinstance(t, Obj) and t.cls is x.cls else None   # noqa: E731
+        elif kind == 2:
             x = B.PyList([leaf('x0'), leaf('x1')])
+            leaves_of = lambda t: list(t.items) if isinstance(t, B.PyList) and t.seq is None else None   # noqa: E731
+        else:
+            x = {'a': leaf('xa'), 'b': leaf('xb')}
+            leaves_of = lambda t: [t[k] for k in ('a', 'b')] if isinstance(t, dict) and list(t) == ['a', 'b'] else None   # noqa: E731
         o = S.new('PackOperator', mask=mask, _in_structure=x)
         out = S.call(S.I.getattr(o, 'mv'), [x])
-        if kind == 2:
-            # a generic container pytree: the property wants every leaf indexed by the mask
-            ok = out.normal and isinstance(out.value, B.PyList) and out.value.seq is None and len(out.value.items) == 2 \
-                and all(indexed_by(r, xi, SSeq.lift((mask,))) is True for r, xi in zip(out.value.items, x.items))
-            S.oblige('post', bool(ok), finding=F_PACK, tag='every-leaf-of-a-container-pytree-is-indexed-by-the-mask')
-            return
         if not out.normal:
-            S.oblige('exc', False, tag=f'no-exception-{out.value.name}')
+            S.oblige('exc', False, tag=f'no-exception-{out.value.name}-for-a-{S.inputs["tree"]}-pytree')
             return
-        r = out.value
-        if kind == 0:
-            S.oblige('post', indexed_by(r, x, SSeq.lift((mask,))), tag='leaf-is-leaf[mask]')
-        else:
-            ok = isinstance(r, Obj) and r.cls is x.cls
-            S.oblige('post', bool(ok), tag='same-stokes-class')
-            if ok:
-                for c in comps:
-                    S.oblige('post', indexed_by(r.fields.get(c), x.fields[c], SSeq.lift((mask,))), tag=f'component-{c}-is-indexed-by-the-mask')
+        got, want = leaves_of(out.value), leaves_of(x)
+        S.oblige('post', got is not None and len(got) == len(want), tag=f'same-container-{S.inputs["tree"]}')
+        if got is None or len(got) != len(want):
+            return
+        for i, (r, xi) in enumerate(zip(got, want)):
+            S.oblige('post', indexed_by(r, xi, SSeq.lift((mask,))), tag=f'{S.inputs["tree"]}-leaf-{i}-is-leaf[mask]')
     ck.explore(f'{LIN}.PackOperator.mv', pack_mv, T)
 
     def stokes_getitem(S):
@@ -475,19 +475,18 @@ def build_rules(ck, T):
     ck.explore(f'{LIN}.PackUnpackRule.apply', pack_unpack, T)
 
     # ---------------------------------------------------------------- TransposeIndexRule.apply:  P.T @ P -> Dg(mult)
-    def transpose_index(S):
+    def transpose_index(S, uniq_case, nleaves):
         S.oracle = {'name': 'multiplicities'}
         ind = IX.idx_seq(S, 'indices')
         S.inputs['kinds'] = ind.map(lambda x: IX.f_kind(x.term))
         n = to_z3(ind.length)
         S.assume(wf_indices(ind))
-        uniq_case = S.choose(2)           # 0: not unique, 1: unique_indices set (finding: pair left unreduced)
+        # uniq_case 0: not unique, 1: unique_indices set (finding: pair left unreduced)
         flag = S.bool('callers_flag')
         basic = zbool(all_basic(ind))
         S.assume(z3.Or(basic, flag) if uniq_case == 1 else z3.And(z3.Not(basic), z3.Not(flag)))
         S.inputs['unique'] = bool(uniq_case)
         unique = z3.If(basic, z3.BoolVal(True), flag)
-        nleaves = 1 + S.choose(2)
         S.inputs['nleaves'] = nleaves
         xs = [leaf(f'x{i}') for i in range(nleaves)]
         xin = xs[0] if nleaves == 1 else ST.StructV(SSeq.lift(xs, 'list'))
@@ -566,8 +565,11 @@ def build_rules(ck, T):
         S.oblige('post', goal, finding=F_ALIAS if alias_case == 1 else None,
                  hint=z3.And(size == 2, n == 1, v == 1) if alias_case == 1 else None,
                  tag='coverage[v]-is-the-number-of-entries-selecting-position-v' + (' (negative aliases present)' if alias_case else ''))
-    ck.explore(f'{IND}.TransposeIndexRule.apply', transpose_index, T, axioms=IX.mult_axioms(),
-               contracts={AXES: indexed_axes_contract, IX.DIAGONAL_INIT: IX.diagonal_init_contract})
+    for uc in (0, 1):
+        for nl in (1, 2):
+            ck.explore(f'{IND}.TransposeIndexRule.apply', (lambda uc, nl: lambda S: transpose_index(S, uc, nl))(uc, nl), T,
+                       label=f'{"unique" if uc else "not-unique"}-{nl}-leaf', axioms=IX.mult_axioms(),
+                       contracts={AXES: indexed_axes_contract, IX.DIAGONAL_INIT: IX.diagonal_init_contract})
 
 
 def build(ck):
